@@ -22,6 +22,7 @@ type exitMsg struct {
 	dom       chain.Domain
 	sigOK     bool
 	desc      string
+	variant   string
 }
 
 // exitDomain: get_domain(state, DOMAIN_VOLUNTARY_EXIT, exit.epoch); from deneb on (EIP-7044) the
@@ -49,7 +50,7 @@ func (s *Scen) exitStep(m *exitMsg) *Step {
 		cond["epoch_reached"] = cur >= m.epoch
 		cond["old_enough"] = cur >= fv.ActivationEpoch+s.spec().SHARD_COMMITTEE_PERIOD
 	}
-	return &Step{Topic: "exit", Desc: m.desc, Cond: cond, Key: map[string][]string{"exit": {keyIdx(m.validator)}}, Now: s.Now,
+	return &Step{Topic: "exit", Desc: m.desc, Variant: m.variant, Cond: cond, Key: map[string][]string{"exit": {keyIdx(m.validator)}}, Now: s.Now,
 		Run: func(b *Backend) gossipval.GossipValidatorResult {
 			return gossipval.ValidateVoluntaryExit(context.Background(), signed, b)
 		}}
@@ -62,12 +63,16 @@ func (s *Scen) honestExit(v common.ValidatorIndex) *exitMsg {
 	if uint64(v) < head.ValidatorCount() {
 		k = head.KeyOf(v)
 	}
-	return &exitMsg{validator: v, epoch: cur, signer: k, dom: s.exitDomain(head, cur), sigOK: true, desc: "honest"}
+	m := &exitMsg{validator: v, epoch: cur, signer: k, dom: s.exitDomain(head, cur), sigOK: true, desc: "honest"}
+	if head.Fork() >= chain.Deneb {
+		m.variant = "deneb-exit-capella-domain"
+	}
+	return m
 }
 
 func (s *Scen) exitHistories(tier string, rng *rand.Rand) []*History {
 	var out []*History
-	if s.Big || s.Name == "altmid" || s.Name == "latebel" || s.Name == "nofin" {
+	if s.Big || s.Name == "altmid" || s.Name == "latebel" || s.Name == "nofin" || s.Name == "p0lag" {
 		return nil
 	}
 	head := s.V.HeadState()
@@ -116,6 +121,14 @@ func (s *Scen) exitHistories(tier string, rng *rand.Rand) []*History {
 			m.sigOK = false
 		})
 		add("epoch:future", func(m *exitMsg) { m.epoch = cur + 1; m.dom = s.exitDomain(head, m.epoch) })
+		if head.Fork() >= chain.Deneb {
+			// EIP-7044: get_domain(state, ...) (the deneb version) is no longer the right domain
+			add("sig:deneb-state-fork-domain", func(m *exitMsg) {
+				m.dom = head.Domain(common.DOMAIN_VOLUNTARY_EXIT, m.epoch)
+				m.sigOK = false
+				m.variant = "deneb-exit-state-domain"
+			})
+		}
 		if cur > 0 {
 			// an exit dated in the past is valid
 			m := *hm
@@ -131,8 +144,7 @@ func (s *Scen) exitHistories(tier string, rng *rand.Rand) []*History {
 	}
 	oor := s.honestExit(common.ValidatorIndex(n))
 	oor.desc = "index:out-of-range"
-	oor.signer = head.KeyOf(0)
-	oor.sigOK = false
+	oor.signer = head.KeyOf(0) // no validator, no key: the signature condition is not evaluable
 	out = append(out, single(oor.desc, s.exitStep(oor)))
 	return out
 }
@@ -191,7 +203,7 @@ func (s *Scen) honestPslash(p common.ValidatorIndex, slot common.Slot) *pslashMs
 
 func (s *Scen) pslashHistories(tier string, rng *rand.Rand) []*History {
 	var out []*History
-	if s.Big || s.Name == "altmid" || s.Name == "latebel" || s.Name == "nofin" {
+	if s.Big || s.Name == "altmid" || s.Name == "latebel" || s.Name == "nofin" || s.Name == "p0lag" {
 		return nil
 	}
 	head := s.V.HeadState()
@@ -386,7 +398,7 @@ func (s *Scen) honestAslash(ind []common.ValidatorIndex, surround bool) *aslashM
 
 func (s *Scen) aslashHistories(tier string, rng *rand.Rand) []*History {
 	var out []*History
-	if s.Big || s.Name == "altmid" || s.Name == "latebel" || s.Name == "nofin" || s.Name == "p0early" {
+	if s.Big || s.Name == "altmid" || s.Name == "latebel" || s.Name == "nofin" || s.Name == "p0lag" || s.Name == "p0early" {
 		return nil
 	}
 	head := s.V.HeadState()
